@@ -134,16 +134,23 @@ def check_sat(formulas, budget=QUICK, want_model=True, fallbacks=True):
 
 def model_value(model, term):
     """python float/int/bool of a term under a model (algebraic numbers approximated)"""
+    from fractions import Fraction
     v = model.eval(term, model_completion=True)
-    if z3.is_true(v):
-        return True
-    if z3.is_false(v):
-        return False
-    if z3.is_int_value(v):
-        return v.as_long()
-    if z3.is_rational_value(v):
-        return v.numerator_as_long() / v.denominator_as_long()
-    if z3.is_algebraic_value(v):
-        a = v.approx(20)
-        return a.numerator_as_long() / a.denominator_as_long()
+    try:
+        if z3.is_true(v):
+            return True
+        if z3.is_false(v):
+            return False
+        if z3.is_int_value(v):
+            return v.as_long()
+        if z3.is_rational_value(v):
+            return float(Fraction(v.as_string()))       # as_string copes with numerals beyond 4300 digits limits better than as_long
+        if z3.is_algebraic_value(v):
+            a = v.approx(20)
+            return float(Fraction(a.as_string()))
+    except (ValueError, OverflowError, ZeroDivisionError):
+        try:
+            return float(v.as_decimal(30).rstrip("?"))
+        except Exception:      # noqa
+            return None
     return None
